@@ -106,7 +106,12 @@ func (e *Env) tr(ex ast.Expr) TVal {
 			}
 			return TVal{T: s, Sort: "Int"}
 		case token.STRING:
-			return e.fail("string literals unsupported: %s", n.Value)
+			// the same constant object the code uses for this literal
+			sv, err := strconv.Unquote(n.Value)
+			if err != nil {
+				return e.fail("bad string literal %s", n.Value)
+			}
+			return TVal{T: e.x.eng.stringConst(e.x, sv), Sort: "Slice", Ty: types.Typ[types.String]}
 		}
 		return e.fail("unsupported literal %s", n.Value)
 	case *ast.Ident:
@@ -411,7 +416,12 @@ func (e *Env) field(x TVal, name string) TVal {
 	}
 	for i, f := range si.Fields {
 		if f.Name == name {
-			return TVal{T: "(" + f.Acc + " " + base + ")", Sort: f.Sort, Ty: st.Field(i).Type()}
+			term := "(" + f.Acc + " " + base + ")"
+			if isPtr && len(e.bound) == 0 && f.Sort == "Slice" && e.st != nil {
+				// heap typing: a slice or string stored in the heap was allocated before it was stored
+				e.x.assume("", "(< (s_base "+term+") "+e.st.na+")")
+			}
+			return TVal{T: term, Sort: f.Sort, Ty: st.Field(i).Type()}
 		}
 	}
 	// embedded
@@ -462,6 +472,74 @@ func (e *Env) trCall(n *ast.CallExpr) TVal {
 		sub := *e
 		sub.st = e.old
 		return sub.tr(n.Args[0])
+	case "calls":
+		// calls("<target>"): calls of <target> made so far by the activation under contract
+		if !need(1) {
+			return TVal{T: "0", Sort: "Int"}
+		}
+		lit, ok := n.Args[0].(*ast.BasicLit)
+		if !ok {
+			return e.fail("calls: argument is a string literal naming the callee")
+		}
+		tg, _ := strconv.Unquote(lit.Value)
+		comp, ok := e.x.callCount[tg]
+		if !ok {
+			return e.fail("calls(%q) is only available in the contract of the calling function", tg)
+		}
+		return TVal{T: e.st.get(comp), Sort: "Int"}
+	case "result":
+		// result("<target>@k", i): the i-th result of that call of the activation under contract
+		// (meaningful only on paths through the call: guard with calls("<target>@k") == 1)
+		if len(n.Args) != 1 && len(n.Args) != 2 {
+			return e.fail("result(\"target@k\"[, i])")
+		}
+		lit, ok := n.Args[0].(*ast.BasicLit)
+		if !ok {
+			return e.fail("result: first argument is a string literal naming the call")
+		}
+		tg, _ := strconv.Unquote(lit.Value)
+		cr, ok := e.x.callResults[tg]
+		if !ok {
+			return e.fail("result(%q): no such call executed before this point", tg)
+		}
+		i := 0
+		if len(n.Args) == 2 {
+			il, ok := n.Args[1].(*ast.BasicLit)
+			if !ok {
+				return e.fail("result: second argument is the result index")
+			}
+			i, _ = strconv.Atoi(il.Value)
+		}
+		rs := cr.sig.Results()
+		if i >= rs.Len() {
+			return e.fail("result(%q, %d): the callee has %d results", tg, i, rs.Len())
+		}
+		v := cr.rv
+		if rs.Len() > 1 {
+			if i >= len(v.tup) {
+				return e.fail("result(%q, %d): result not available", tg, i)
+			}
+			v = v.tup[i]
+		}
+		return TVal{T: v.t, Sort: e.x.so.sortOf(rs.At(i).Type()), Ty: rs.At(i).Type()}
+	case "athead":
+		// athead(k, e): e evaluated in the state at the head of loop k of the function under
+		// contract, in the current iteration (after the loop havoc, invariants assumed)
+		if !need(2) {
+			return TVal{T: "false", Sort: "Bool"}
+		}
+		lit, ok := n.Args[0].(*ast.BasicLit)
+		if !ok {
+			return e.fail("athead: first argument is the loop ordinal")
+		}
+		k, _ := strconv.Atoi(lit.Value)
+		hs := e.x.headSt[k]
+		if hs == nil {
+			return e.fail("athead(%d, ...) used outside loop %d", k, k)
+		}
+		sub := *e
+		sub.st = hs
+		return sub.tr(n.Args[1])
 	case "imp":
 		if !need(2) {
 			return TVal{T: "false", Sort: "Bool"}
